@@ -26,6 +26,7 @@ type layout struct {
 	Trail    []int  `json:"trail,omitempty"` // append white space to line i
 	TrailWS  string `json:"trailws,omitempty"`
 	AllTrail bool   `json:"alltrail,omitempty"`
+	BlankWS  string `json:"blankws,omitempty"` // what an inserted blank line holds (white space only)
 }
 
 type kase struct {
@@ -59,7 +60,7 @@ func render(lines []string, l layout) []byte {
 	var sb strings.Builder
 	for i, ln := range lines {
 		if isBlank[i] {
-			sb.WriteString(nl)
+			sb.WriteString(l.BlankWS + nl)
 		}
 		sb.WriteString(ln)
 		if trail[i] || l.AllTrail {
@@ -68,7 +69,7 @@ func render(lines []string, l layout) []byte {
 		sb.WriteString(nl)
 	}
 	if isBlank[len(lines)] {
-		sb.WriteString(nl)
+		sb.WriteString(l.BlankWS + nl)
 	}
 	out := sb.String()
 	if l.NoFinal {
@@ -220,7 +221,9 @@ func layoutClass(l layout) string {
 	if l.NoFinal {
 		p = append(p, "nofinal")
 	}
-	if len(l.Blank) > 0 {
+	if len(l.Blank) > 0 && l.BlankWS != "" {
+		p = append(p, "whitespace-line")
+	} else if len(l.Blank) > 0 {
 		p = append(p, "blank")
 	}
 	if len(l.Trail) > 0 || l.AllTrail {
@@ -261,6 +264,14 @@ func layouts(n int, blankSites []int, trailing bool, pairs bool) []layout {
 				}
 			}
 			if trailing {
+				// blank lines that are not empty: white space only
+				for _, b := range blankSites {
+					for _, ws := range []string{" ", " \t"} {
+						l := base
+						l.Blank, l.BlankWS = []int{b}, ws
+						out = append(out, l)
+					}
+				}
 				for _, ws := range []string{" ", "\t", " \t"} {
 					l := base
 					l.AllTrail, l.TrailWS = true, ws
@@ -285,7 +296,7 @@ func layouts(n int, blankSites []int, trailing bool, pairs bool) []layout {
 }
 
 func run(c *enum.Ctx) {
-	c.Rule("FASTA read into plain and quality-carrying templates, and written/read with ID and sequence-line prefixes; every FASTA/FASTQ file read alternately with a companion reader of another configuration; valid files from the C01/C02 generators (<=2 records; FASTA also a 12289-letter record) x layout transformations: FASTA re-wrap at widths {1,2,3,60,4095,4096,4097,20000}, a blank line at every line boundary (thorough: every pair), trailing ' ', tab, ' tab' on each line and on all lines, CRLF, no final newline, and their pairwise combinations; FASTQ: CRLF, blank lines at record boundaries, trailing blanks, no final newline; BED (every type) and GFF (features, regions, inline sequences last or not): CRLF x final newline; oracle: the record list of the variant equals that of the canonical file; non-trivial = variants that differ from the canonical text")
+	c.Rule("FASTA read into plain and quality-carrying templates, and written/read with ID and sequence-line prefixes; every FASTA/FASTQ file read alternately with a companion reader of another configuration; valid files from the C01/C02 generators (<=2 records; FASTA also a 12289-letter record) x layout transformations: FASTA re-wrap at widths {1,2,3,60,4095,4096,4097,20000}, a blank line - empty or holding white space only - at every line boundary (thorough: every pair), trailing ' ', tab, ' tab' on each line and on all lines, CRLF, no final newline, and their pairwise combinations; FASTQ: CRLF, blank lines at record boundaries, trailing blanks, no final newline; BED (every type) and GFF (features, regions, inline sequences last or not): CRLF x final newline; oracle: the record list of the variant equals that of the canonical file; non-trivial = variants that differ from the canonical text")
 	c.Assume("blank lines inside a FASTQ record and trailing blanks/blank lines in BED/GFF are not covered by the statement and are not generated")
 	var cases []kase
 	recs := []seqgen.Rec{
